@@ -583,4 +583,29 @@ example : coreOKb [(0, []), (1, [0]), (2, [0]), (3, [1, 2])] []
   decide
 example : coreOKb [(0, []), (1, [0]), (2, [0]), (3, [1, 2])] [] [3] [1, 0, 2] = false := by decide
 
+
+/-! ### defect found by the 6-node exhaustive space, fixed in /repo (389cb25): an orphaned data root
+
+`order({'a':(f,),'b':(f,),'c':2,'L1':['a','b','c'],'L2':['b','c','L1'],'L3':['c','L2']})` raised `IndexError`. In the
+model (keys a,b,c,L1,L2,L3 = 0..5): the shared data root 2 is removed in the first sweep and remembered in
+`requires_data_task` of 3 and 4 only; both are stripped in later sweeps. The core reaches a removed root only through
+`requires_data_task[item]` of an item it emits, so nothing emitted key 2, `CoreOK` (which demands it, below) could not
+be met and `get_target` ran out of leaves. The repaired code emits such roots before the core starts. -/
+
+theorem orphaned_data_root_witness :
+    (strip [(0, []), (1, []), (2, []), (3, [0, 1, 2]), (4, [1, 2, 3]), (5, [2, 4])] (fun k => decide (k < 2))).stripped
+        = [5, 4, 3] ∧
+    (strip [(0, []), (1, []), (2, []), (3, [0, 1, 2]), (4, [1, 2, 3]), (5, [2, 4])] (fun k => decide (k < 2))).alive
+        = [0, 1] ∧
+    (strip [(0, []), (1, []), (2, []), (3, [0, 1, 2]), (4, [1, 2, 3]), (5, [2, 4])] (fun k => decide (k < 2))).dataRoots
+        = [(3, 2), (4, 2)] := by decide
+
+/-- the frame's side condition really asks the core for the orphaned root -/
+theorem orphaned_data_root_required (core : List Key)
+    (h : CoreOK [(0, []), (1, []), (2, []), (3, [0, 1, 2]), (4, [1, 2, 3]), (5, [2, 4])] [] [5, 4, 3] core) :
+    2 ∈ core := (h.dom 2).mpr (by decide)
+/-- ... and the repaired output `{L3:5, L2:4, L1:3, c:0, b:1, a:2}` meets it -/
+example : coreOKb [(0, []), (1, []), (2, []), (3, [0, 1, 2]), (4, [1, 2, 3]), (5, [2, 4])] [] [5, 4, 3] [2, 1, 0] = true := by
+  decide
+
 end Dask.C06
